@@ -26,6 +26,15 @@ func vpAddEdge(from, to *BuildTarget) {
 	from.dependencies = append(from.dependencies, depInfo{declared: &l, deps: []*BuildTarget{to}, resolved: true})
 }
 
+// vpAddEdgeKind is vpAddEdge for the other kinds of dependency edge: 1 source
+// only, 2 data only, 3 internal, 4 run-time. All of them are waited for by
+// queueTargetAsync (Dependencies()), so all of them can close a cycle.
+func vpAddEdgeKind(from, to *BuildTarget, kind int) {
+	l := to.Label
+	from.dependencies = append(from.dependencies, depInfo{declared: &l, deps: []*BuildTarget{to}, resolved: true,
+		source: kind == 1, data: kind == 2, internal: kind == 3, runtime: kind == 4})
+}
+
 // vpClosure computes the reflexive-free transitive closure of adj.
 func vpClosure(adj [][]bool) [][]bool {
 	n := len(adj)
